@@ -290,15 +290,15 @@ def require_ok(r: TlcResult, what: str):
 def printed_values(out: str, tag: str):
     """Extract values printed with PrintT(<<"tag", ...>>) from TLC output (bracket matching)."""
     res = []
-    needle = '<<"' + tag + '"'
+    pat = re.compile(r'<<\s*"' + re.escape(tag) + '"')
     i = 0
     while True:
-        i = out.find(needle, i)
-        if i < 0:
+        m = pat.search(out, i)
+        if not m:
             return res
-        p = _P(out, i)
+        p = _P(out, m.start())
         try:
             res.append(p.value())
             i = p.i
         except Exception:
-            i += len(needle)
+            i = m.end()
